@@ -244,6 +244,14 @@ func (p *phaser) Phase(orfs, seqs SeqBag) (phased chan PhasedSequence, err error
 	return
 }
 
+// copyResidues returns a copy of the given residues, so that the phased
+// sequences do not share their residues with the input sequences
+func copyResidues(residues []uint8) []uint8 {
+	c := make([]uint8, len(residues))
+	copy(c, residues)
+	return c
+}
+
 func (p *phaser) alignAgainstRefsAA(seq Sequence, orfsaa []Sequence) (ph PhasedSequence, err error) {
 	var bestscore float64 = .0
 	var bestratematches, bestlen float64 = .0, .0
@@ -323,10 +331,10 @@ func (p *phaser) alignAgainstRefsAA(seq Sequence, orfsaa []Sequence) (ph PhasedS
 		Removed:  false,
 		Position: beststart,
 		NtSeq: NewSequence(bestseq.Name(),
-			bestseq.SequenceChar()[beststart:bestend],
+			copyResidues(bestseq.SequenceChar()[beststart:bestend]),
 			bestseq.Comment()),
 		CodonSeq: NewSequence(bestseq.Name(),
-			bestseq.SequenceChar()[beststart:bestend],
+			copyResidues(bestseq.SequenceChar()[beststart:bestend]),
 			bestseq.Comment()),
 		AaSeq: NewSequence(bestseqaa.Name(),
 			bestseqaa.SequenceChar()[beststartaa:bestendaa],
@@ -416,7 +424,7 @@ func (p *phaser) alignAgainstRefsNT(seq Sequence, orfs []Sequence) (ph PhasedSeq
 		Removed:  false,
 		Position: beststart,
 		NtSeq: NewSequence(bestseq.Name(),
-			bestseq.SequenceChar()[beststart:bestend],
+			copyResidues(bestseq.SequenceChar()[beststart:bestend]),
 			bestseq.Comment()),
 		// For two next sequences we take into account the right phase
 		// (taking into account initial gaps)
@@ -426,7 +434,7 @@ func (p *phaser) alignAgainstRefsNT(seq Sequence, orfs []Sequence) (ph PhasedSeq
 		// --N NNN NNN => phase 1
 		// --- NNN NNN => phase 0
 		CodonSeq: NewSequence(bestseq.Name(),
-			bestseq.SequenceChar()[beststart+phase:bestend],
+			copyResidues(bestseq.SequenceChar()[beststart+phase:bestend]),
 			bestseq.Comment()),
 		AaSeq: NewSequence(bestseq.Name(),
 			bestseq.SequenceChar()[beststart+phase:bestend],
